@@ -108,11 +108,84 @@ def plan(tier, seed):
             g = G.make_group(gid, o, grng, ordered, 1, (0 if quick else 64) // o.weight, dims=dims, small=quick)
             gid += 1
             progs.append((G.Program("c09_s%d_%s_v%d_%s" % (seed, tier[0], rnd, n), [g]), flavors))
+    if os.environ.get("C09_CORE_ONLY"):      # debugging aid
+        progs = []
+    if not os.environ.get("C09_NO_CORE"):
+        progs = core_programs(sup) + progs
     if os.environ.get("C09_OPS"):
         # debugging / self-test aid: only the programs (unchanged) that contain one of the named operations
         want = set(os.environ["C09_OPS"].split(","))
         progs = [(p, f) for (p, f) in progs if any(g.op.name in want for g in p.groups)]
     return progs
+
+
+# ----------------------------------------------------------------------------------------------------
+# deterministic core (independent of VERIF_SEED and of the tier): one witness for every defect FAMILY that is known on the
+# current tree, so that the set of family keys a run prints does not depend on what the seed happens to draw
+# ----------------------------------------------------------------------------------------------------
+
+def _ia(n, mx):
+    return dict(n=n, mx=list(mx))
+
+
+CORE_INDEX = [
+    # (operation, dims, baked value set, signature, configurations, explicit value sets)
+    ("normalize_axis", (3,), dict(axis=[0, 1, 2], ndim=4), dict(axis=_ia(3, [3, 3, 3]), ndim=dict(mx=4)),
+     ["clt|rt:int", "cla|cl", "clt|ct", "fx:int|rt:int", "dy:int|rt:int"],
+     [dict(axis=[0, 1, 2], ndim=4), dict(axis=[-2, 3, -3], ndim=4), dict(axis=[-5, 0, 1], ndim=4)]),
+    ("moveaxis_to_transpose", (3, 1), dict(shape=[2, 3, 4], source=[0], destination=[2]),
+     dict(shape=_ia(3, [4, 4, 4]), source=_ia(1, [3]), destination=_ia(1, [3])),
+     ["clt|clt|clt", "clv|clv|clv", "fx:int|fx:int|fx:int"],
+     [dict(shape=[2, 3, 4], source=[0], destination=[2]), dict(shape=[2, 3, 4], source=[-1], destination=[0])]),
+    ("remove_dims", (3, 0), dict(shape=[2, 3, 4], axis=-2, keepdims=1), dict(shape=_ia(3, [4, 4, 4]), axis=dict(mx=3), keepdims=dict(mx=2)),
+     ["fx:size_t|rt:int|b", "ct|rt:int|b", "clt|rt:int|b", "ct|ct|b", "dy:size_t|rt:int|b"],
+     [dict(shape=[2, 3, 4], axis=-2, keepdims=1), dict(shape=[2, 3, 4], axis=-2, keepdims=0)]),
+    ("remove_dims_axes", (3, 2), dict(shape=[2, 3, 4], axes=[0, -1], keepdims=1), dict(shape=_ia(3, [4, 4, 4]), axes=_ia(2, [3, 3]), keepdims=dict(mx=2)),
+     ["fx:int|fx:int|b", "ct|ct|b", "clt|fx:int|b", "dy:int|dy:int|b"],
+     [dict(shape=[2, 3, 4], axes=[0, -1], keepdims=1), dict(shape=[2, 3, 4], axes=[0, -1], keepdims=0)]),
+    ("shape_pad", (2,), dict(shape=[3, 3], pad_width=[1, 0, 2, 0]), dict(shape=_ia(2, [5, 5]), pad_width=_ia(4, [5, 5, 5, 5])),
+     ["clv|clv", "clv|dy:int", "fx:int|fx:int"], [dict(shape=[3, 3], pad_width=[1, 0, 2, 0])]),
+    ("shape_reshape", (2, 3, True), dict(src=[2, 4], dst=[1, -1, 1]), dict(src=_ia(2, [4, 4]), dst=_ia(3, [2, 1, 2])),
+     ["fx:int|clt", "dy:int|clt", "fx:int|fx:int"], [dict(src=[2, 4], dst=[1, -1, 1])]),
+    ("shape_squeeze", (2,), dict(shape=[2, 3]), dict(shape=_ia(2, [4, 5])),
+     ["clt", "fx:size_t"], [dict(shape=[2, 3]), dict(shape=[1, 3]), dict(shape=[1, 5])]),
+    ("shape_concatenate", (2, False), dict(a=[1, 2], b=[1, 3], axis=1), dict(a=_ia(2, [3, 3]), b=_ia(2, [3, 3]), axis=dict(mx=2)),
+     ["clv|clv|cl", "fx:int|fx:int|rt:int"], [dict(a=[1, 2], b=[1, 3], axis=1), dict(a=[2, 1], b=[3, 1], axis=0)]),
+    ("shape_atleast_nd", (3,), dict(shape=[1, 2, 1], nd=1), dict(shape=_ia(3, [2, 5, 2]), nd=dict(mx=4)),
+     ["clt|rt:int", "fx:int|rt:int"], [dict(shape=[1, 5, 1], nd=1), dict(shape=[1, 5, 1], nd=4)]),
+]
+
+CORE_VIEW = [
+    ("reshape", (3, 2, True), dict(a=G.A([3, 2, 1], 1), dst=[-1, 1]), dict(a=dict(S=[3, 2, 1], T="int"), dst=_ia(2, [2, 2])),
+     ["fs_fb|clt", "ds_db|clt", "ds_db|fx:int"], [dict(a=G.A([3, 2, 1], 1), dst=[-1, 1])]),
+    ("concatenate", (3, False), dict(a=G.A([2, 3, 1], 1), b=G.A([2, 3, 1], 50), axis=1), dict(a=dict(S=[2, 3, 1], T="int"), b=dict(S=[2, 3, 1], T="int"), axis=dict(mx=2)),
+     ["ls_hb|ls_hb|rt:int", "ds_db|ds_db|rt:int"], [dict(a=G.A([2, 3, 1], 1), b=G.A([2, 3, 1], 50), axis=1)]),
+    ("matmul", (2, 1), dict(a=G.A([2, 2], 1), b=G.A([2], 50)), dict(a=dict(S=[2, 2], T="int"), b=dict(S=[2], T="int")),
+     ["ds_fb|ds_fb", "hs_fb|hs_fb"], [dict(a=G.A([2, 2], 1), b=G.A([2], 50))]),
+    ("transpose", (3, False), dict(a=G.A([3, 1, 3], 1), axes=[2, 0, 1]), dict(a=dict(S=[3, 1, 3], T="int"), axes=_ia(3, [2, 2, 2])),
+     ["ls_fb|ct", "nested|hy:int", "ds_db|fx:int"], [dict(a=G.A([3, 1, 3], 1), axes=[2, 0, 1])]),
+]
+
+
+def core_programs(sup, gid0=9000):
+    """[(Program, flavors)]: configurations outside the allow-list are left out"""
+    out = []
+    gid = gid0
+    for name, table in (("c09_core_ix", CORE_INDEX), ("c09_core_v", CORE_VIEW)):
+        groups = []
+        for (opn, dims, baked, sig, cfgs, values) in table:
+            o = G.OPS[opn]
+            allowed = set(sup.get("asan", {}).get(opn, {}).get(repr(dims), []))
+            full = {a.name: None for a in o.args}
+            full.update(sig)
+            g = G.Group(gid, o, dims, [baked], full, [c for c in cfgs if c in allowed])
+            g.fixed_values = values
+            gid += 1
+            if g.cfgs:
+                groups.append(g)
+        if groups:
+            out.append((G.Program(name, groups), ["asan"]))
+    return out
 
 
 def split_dims(o):
@@ -289,7 +362,10 @@ def run_plan(ctx, tier, seed, want_flavors=None):
         cid = 0
         for g in p.groups:
             vrng = gen_rng(seed, "values/%s/%d" % (p.name, g.gid))
-            vs, space = value_sets(g, vrng, 50 if quick else 400, 160 if quick else 400)
+            if getattr(g, "fixed_values", None) is not None:
+                vs, space = [(v, "core") for v in g.fixed_values], None
+            else:
+                vs, space = value_sets(g, vrng, 50 if quick else 400, 160 if quick else 400)
             info["spaces"]["%s/g%d" % (p.name, g.gid)] = dict(op=g.op.name, dims=repr(g.dims), value_sets=len(vs), primary_space=space,
                                                                enumerated=sum(1 for _, w in vs if w == "enum"))
             for (v, why) in vs:
@@ -617,8 +693,81 @@ def vals_brief(r):
     return out
 
 
+# ----------------------------------------------------------------------------------------------------
+# defect families: the key of a violation is a function of its CAUSE.  A violation whose cause (operation, kinds of the
+# arguments, coarse argument class) matches a family below is reported under the family key - one key per family and
+# property, whatever the symptom (wrong value / has_value / exception / crash / trait / hook) and whatever the seed drew;
+# everything else keeps the fine-grained key <op>:<argument classes>:... (never listed as known).
+# ----------------------------------------------------------------------------------------------------
+
+CLIPPED_IDX_KINDS = ("clt", "cla", "clv", "cl")
+AXIS_OPS = ("normalize_axis", "normalize_axis1", "moveaxis_to_transpose", "remove_dims", "remove_dims_axes", "sum", "sum_axes")
+CLIPPED_BOUND_OPS = ("shape_pad", "shape_reshape", "shape_squeeze", "shape_concatenate", "shape_atleast_nd", "reshape", "concatenate")
+
+
+def family_of(op, cfg, vals, key):
+    """vals: brief values (array operands as their shape)"""
+    o = G.OPS.get(op)
+    if o is None or cfg == "cx":
+        return None
+    acs = G.cfg_parse(cfg)
+    pairs = list(zip(o.args, acs))
+    akinds = [ac.kind for a, ac in pairs if a.typ == "arr"]
+    if key.startswith("operand:"):
+        kind = key.split(":")[1]
+        if kind == "nested":
+            return "nested_array_size"
+        if kind in ("ls_fb", "cm_ls_fb") and "hook:clamp" in key:
+            return "ndarray_clipped_shape_fixed_buffer_ctor"
+        return None
+    if key.endswith(":eval:hook:clamp") and any(k in ("ls_fb", "cm_ls_fb") for k in akinds):
+        # the evaluated result of a view over such an operand is such an array again
+        return "ndarray_clipped_shape_fixed_buffer_ctor"
+    if op == "matmul" and any(len(vals[a.name]) == 1 for a, ac in pairs if a.typ == "arr"):
+        return "matmul_operand_1d"
+    if op in ("remove_dims", "remove_dims_axes"):
+        kd = [(a, ac) for a, ac in pairs if a.typ == "is" and a.boolean]
+        shp = pairs[0][1].kind
+        if kd and kd[0][1].kind == "b" and vals.get("keepdims") == 1 and G.KIND_CLASS.get(shp) in ("fixed", "const", "clipped", "bounded"):
+            return "remove_dims_runtime_keepdims"
+    if op in AXIS_OPS:
+        for a, ac in pairs:
+            if a.typ in ("ia", "is") and a.signed and not getattr(a, "placeholder", False) and ac.kind in CLIPPED_IDX_KINDS:
+                v = vals.get(a.name)
+                vs = v if isinstance(v, list) else [v]
+                if any(x is not None and x < 0 for x in vs):
+                    return "signed_clipped_axes"
+    if op in CLIPPED_BOUND_OPS:
+        if any(a.typ in ("ia", "is") and ac.kind in CLIPPED_IDX_KINDS for a, ac in pairs) or any("ls_" in k for k in akinds):
+            return "clipped_result_bounds:%s" % op
+    return None
+
+
+class FamilyCtx:
+    """wraps Ctx: rewrites the key of a violation to its family key"""
+
+    def __init__(self, ctx, suffix):
+        self._ctx = ctx
+        self._suffix = suffix
+        self.families = {}
+
+    def __getattr__(self, name):
+        return getattr(self._ctx, name)
+
+    def violation(self, key, what, det=None):
+        fam = None
+        if isinstance(det, dict) and "op" in det:
+            fam = family_of(det["op"], det.get("config"), det.get("values") or {}, key)
+        if fam is not None:
+            self.families[fam] = self.families.get(fam, 0) + 1
+            what = "[%s] %s" % (key, what)
+            key = "%s:%s" % (fam, self._suffix)
+        self._ctx.violation(key, what, det)
+
+
 def judge_c09(ctx, recs, info):
     """differential + NumPy oracle; returns coverage matrix"""
+    ctx = FamilyCtx(ctx, "deviates")
     matrix = {}
     by_case = {}
     nrec = 0
@@ -628,7 +777,7 @@ def judge_c09(ctx, recs, info):
         ck = G.cfg_kinds(r.inst.cfg)
         cc = G.cfg_class(r.inst.cfg)
         cell = matrix.setdefault(o.name, {}).setdefault(ck, 0)
-        det = dict(program=r.prog, flavor=r.flavor, instance=r.inst.name, config=r.inst.cfg, values=vals_brief(r), case=r.line)
+        det = dict(op=o.name, program=r.prog, flavor=r.flavor, instance=r.inst.name, config=r.inst.cfg, values=vals_brief(r), case=r.line)
         if r.crash is not None:
             ctx.violation("%s:%s:deviates" % (o.name, cc), "%s(%s) in configuration %s [%s] died: %s" % (o.name, vals_brief(r), r.inst.cfg, r.flavor, r.crash.kind()),
                           dict(det, stderr=r.crash.stderr[-2500:]))
@@ -689,8 +838,8 @@ def judge_c09(ctx, recs, info):
                 o = r0.g.op
                 ctx.violation("%s:%s:flavors_differ" % (o.name, G.cfg_class(r0.inst.cfg)),
                               "%s(%s) configuration %s: build %s gives %s, build %s gives %s" % (o.name, vals_brief(r0), r0.inst.cfg, f0, str(g0)[:150], f1, str(g1)[:150]),
-                              dict(program=r0.prog, instance=r0.inst.name, case=r0.line))
-    return dict(matrix=matrix, records=nrec, cross_build_comparisons=nflav, invalid_without_failure_channel=unchecked)
+                              dict(op=o.name, config=r0.inst.cfg, values=vals_brief(r0), program=r0.prog, instance=r0.inst.name, case=r0.line))
+    return dict(matrix=matrix, records=nrec, cross_build_comparisons=nflav, invalid_without_failure_channel=unchecked, families=ctx.families)
 
 
 def strip_static(toks):
@@ -711,6 +860,7 @@ CLAMP, SVEC_CAP = 6, 4
 
 
 def judge_c11(ctx, recs, info):
+    ctx = FamilyCtx(ctx, "static_knowledge")
     matrix = {}
     types_seen = {}
     hook_events = {"clamp": 0, "svec_capacity": 0}
@@ -719,7 +869,7 @@ def judge_c11(ctx, recs, info):
         o = r.g.op
         ck = G.cfg_kinds(r.inst.cfg)
         cc = G.cfg_class(r.inst.cfg)
-        det = dict(program=r.prog, flavor=r.flavor, instance=r.inst.name, config=r.inst.cfg, values=vals_brief(r), case=r.line)
+        det = dict(op=o.name, program=r.prog, flavor=r.flavor, instance=r.inst.name, config=r.inst.cfg, values=vals_brief(r), case=r.line)
         if r.crash is not None or r.toks is None or (has_exc(r.toks) and o.family == "view"):
             # crashes are C09/C02 material; here only static knowledge is judged
             continue
@@ -771,7 +921,7 @@ def judge_c11(ctx, recs, info):
                     ctx.sample(dict(op=o.name, config=r.inst.cfg, values=vals_brief(r), static=tr, runtime=str(res)))
         except (ValueError, IndexError) as e:
             ctx.violation("%s:%s:malformed" % (o.name, cc), "unparsable record: %s (%s)" % (e, " ".join(r.toks[:40])), det)
-    return dict(matrix=matrix, traits_checked=ntraits, hook_events=hook_events,
+    return dict(families=ctx.families, matrix=matrix, traits_checked=ntraits, hook_events=hook_events,
                 result_type_classes={k: len(v) for k, v in sorted(types_seen.items())})
 
 
@@ -781,7 +931,13 @@ def judge_hooks(ctx, o, cc, r, hk, det, totals, akinds):
     error -> inconclusive); array operands are built by the library's own ndarray constructor / resize -> keyed by array kind.
     HK1 = the call (view built and read), HK2 = evaluation."""
     msg = {"clamp": "a clipped integer stored a different value", "svec_capacity": "a static_vector was asked to exceed its capacity"}
+    failing = expected_of(r) == G.NOTHING
     for tag, d in hk.items():
+        if failing and not tag.startswith("HKA"):
+            # a call that must fail builds no result: what it stores on the way to noticing the failure is not a result
+            for site, (viol, v, b, ev) in d.items():
+                totals[site] += ev
+            continue
         for site, (viol, v, b, ev) in d.items():
             totals[site] += ev
             if not viol:
